@@ -19,22 +19,14 @@ theorem getX_eq_spec (side : Side) : getX side = Spec.x side := by
 /-- `crypto.MessageKey` = `substr (SHA256 (substr (auth_key, 88+x, 32) + plaintext + padding), 8, 16)`,
 for every auth key, plaintext and direction. -/
 theorem msgKey_impl_eq_spec (P : Prims) (hP : LawfulPrims P) (authKey plain : Bytes) (side : Side) :
-    Impl.msgKey P authKey plain side = Spec.msgKey P authKey plain side := by
-  unfold Impl.msgKey Spec.msgKey
-  rw [msgKeyLarge_eq]
-  exact messageKey_eq _ (hP.sha256_len _)
+    Impl.msgKey P authKey plain side = Spec.msgKey P authKey plain side :=
+  msgKey_eq P hP authKey plain side
 
 /-- `crypto.Keys` = the MTProto 2.0 `aes_key`, `aes_iv`, for every auth key, message key and
 direction. -/
 theorem keys_impl_eq_spec (P : Prims) (hP : LawfulPrims P) (authKey msgKey : Bytes) (side : Side) :
-    Impl.keys P authKey msgKey side = Spec.keys P authKey msgKey side := by
-  unfold Impl.keys Spec.keys Impl.aesIV
-  simp only [Facts.C06.keys_aesKey_args, Facts.C06.keys_aesIV_args, Facts.C06.aesIV_aesKey_args,
-    List.getD_cons_zero, List.getD_cons_succ]
-  rw [sha256a_eq, sha256b_eq]
-  have la : (Spec.sha256a P authKey msgKey side).length = 32 := hP.sha256_len _
-  have lb : (Spec.sha256b P authKey msgKey side).length = 32 := hP.sha256_len _
-  rw [aesKey_eq _ _ la lb, aesKey_eq _ _ lb la]
+    Impl.keys P authKey msgKey side = Spec.keys P authKey msgKey side :=
+  keys_eq P hP authKey msgKey side
 
 /-- `crypto.MessageKeyV1` = `substr (SHA1 (plaintext), 4, 16)`. -/
 theorem msgKeyV1_impl_eq_spec (P : Prims) (hP : LawfulPrims P) (plain : Bytes) :
